@@ -287,7 +287,7 @@ def check_case(case) -> Outcome:
     region_of = sink_ctx.region_of()
     fails, stats = analyse_trace(ts.state, inner, region_of)
     # targets living in their own traced stores
-    rejected_paths = {t.path for t in sink_ctx.targets if t.sink["cls"] in ("region-misaligned", "existing-smaller", "existing-larger-unaligned")}
+    rejected_paths = {t.path for t in sink_ctx.targets if t.sink["cls"] in ("region-misaligned", "existing-smaller", "existing-larger-unaligned") or t.sink["cls"].startswith("region-malformed")}
     for tstore in sink_ctx.stores:
         f2, s2 = analyse_trace(tstore.state, dict(tstore._store._store_dict), region_of, never_written_ok=rejected_paths)
         fails += f2
